@@ -19,8 +19,14 @@
 //!   `grisubal none …`) that lie strictly inside the segment, in the order of the segment, as exact rationals
 //!   (`ok n | x y | …`); the model answers with the crossings its `crossingsOf` computes.  `gchain …` (implementation
 //!   only) -> `ok true` iff consecutive ones are joined by an edge of the map.
+//! * `gcrossd <cx> <cy> <ox> <oy> <nx> <ny> x1 y1 x2 y2` -> `verif::intersection_data` (the real
+//!   `generate_intersection_data`) for one segment on a fresh grid: `ok dart t ; dart t ; …` in identifier order, exact
+//!   rationals of the f64 values (a slot left at `(0, NaN)` prints `0 nan`); answered by the model with `crossingsOf`.
 //! * `ancinit` -> rebuilds the 2-D session map with the three anchor storages (public API only:
 //!   builder + `set_betas` + `remove_free_dart` + `force_write_*`); storages 6, 7, 8 of `snap`.
+//! * `bndinit` -> rebuilds the 2-D session map with the `Boundary` storage of the clip step (storage 9 of `snap`: 0 `None`,
+//!   1 `Left`, 2 `Right`); `wbnd <dart> <L|R|N|->` -> `force_write_attribute::<Boundary>` / remove; `clip left|right` -> the real
+//!   `clip_left` / `clip_right` (hook `grisubal::verif`): `ok` / `err InconsistentOrientation between-boundary-inconsistency` / `panic`.
 //! * `wanchor v|e|f <id> <N|C|S|B><k>` -> `force_write_attribute`; `anchors` -> anchors of every
 //!   vertex / edge / face id of in-use darts; `classify` -> `classify_capture`.
 //!
@@ -30,6 +36,7 @@
 use std::sync::atomic::{AtomicUsize, Ordering};
 
 use honeycomb_core::cmap::{CMap2, CMapBuilder, DartIdType};
+use honeycomb_kernels::grisubal::verif::{Boundary, clip_left, clip_right};
 use honeycomb_kernels::grisubal::{Clip, GrisubalError, grisubal};
 use honeycomb_kernels::remeshing::{ClassificationError, capture_geometry, classify_capture};
 use honeycomb_kernels::utils::{EdgeAnchor, FaceAnchor, VertexAnchor};
@@ -248,11 +255,27 @@ pub fn snap_parts(m: &CMap2<f64>) -> Vec<String> {
     if m.contains_attribute::<FaceAnchor>() {
         parts.push(format!("a8: {}", (0..n).map(|x| f_code(m.force_read_attribute::<FaceAnchor>(x))).collect::<Vec<_>>().join(" ")));
     }
+    if m.contains_attribute::<Boundary>() {
+        parts.push(format!("a9: {}", (0..n).map(|x| bd_code(m.force_read_attribute::<Boundary>(x))).collect::<Vec<_>>().join(" ")));
+    }
     parts
 }
 
-/// same darts, betas, removal flags, vertices and test attributes, plus the anchor storages
-fn with_anchors(s: &s2::S2) -> s2::S2 {
+/// `Boundary` tag of a dart as the model encodes it: 0 `None`, 1 `Left`, 2 `Right`
+pub fn bd_code(a: Option<Boundary>) -> String {
+    match a {
+        None => "none".into(),
+        Some(Boundary::None) => "0".into(),
+        Some(Boundary::Left) => "1".into(),
+        Some(Boundary::Right) => "2".into(),
+    }
+}
+
+/// same darts, betas, removal flags, vertices and attributes, plus the anchor storages (`anchors`) and / or the
+/// `Boundary` storage of the clip step (`boundary`); storages the map already has are kept with their values
+fn rebuild(s: &s2::S2, anchors: bool, boundary: bool) -> s2::S2 {
+    let anchors = anchors || has_anchors(&s.map);
+    let boundary = boundary || s.map.contains_attribute::<Boundary>();
     let old = &s.map;
     let n = old.n_darts();
     let mask = s.mask;
@@ -269,7 +292,12 @@ fn with_anchors(s: &s2::S2) -> s2::S2 {
     if mask & 16 != 0 {
         b = b.add_attribute::<VDef>();
     }
-    b = b.add_attribute::<VertexAnchor>().add_attribute::<EdgeAnchor>().add_attribute::<FaceAnchor>();
+    if anchors {
+        b = b.add_attribute::<VertexAnchor>().add_attribute::<EdgeAnchor>().add_attribute::<FaceAnchor>();
+    }
+    if boundary {
+        b = b.add_attribute::<Boundary>();
+    }
     let mut map: CMap2<f64> = b.build().unwrap();
     for x in 1..n as DartIdType {
         if old.is_unused(x) {
@@ -298,6 +326,22 @@ fn with_anchors(s: &s2::S2) -> s2::S2 {
         }
         if mask & 16 != 0 {
             if let Some(v) = old.force_read_attribute::<VDef>(x) {
+                map.force_write_attribute(x, v);
+            }
+        }
+        if has_anchors(old) {
+            if let Some(v) = old.force_read_attribute::<VertexAnchor>(x) {
+                map.force_write_attribute(x, v);
+            }
+            if let Some(v) = old.force_read_attribute::<EdgeAnchor>(x) {
+                map.force_write_attribute(x, v);
+            }
+            if let Some(v) = old.force_read_attribute::<FaceAnchor>(x) {
+                map.force_write_attribute(x, v);
+            }
+        }
+        if old.contains_attribute::<Boundary>() {
+            if let Some(v) = old.force_read_attribute::<Boundary>(x) {
                 map.force_write_attribute(x, v);
             }
         }
@@ -367,6 +411,39 @@ pub fn step(sess: &mut Sess, toks: &[&str]) -> Option<String> {
                 _ => "ok".into(),
             })
         }
+        "gcrossd" => {
+            // gcrossd <cx> <cy> <ox> <oy> <nx> <ny> x1 y1 x2 y2: step 1 of the kernel itself (verification hook
+            // `grisubal::verif::intersection_data`) for the single segment (x1,y1) -> (x2,y2) on a fresh nx x ny grid:
+            // the (dart, t) pairs in identifier order
+            if toks.len() != 11 {
+                return Some("bad-op".into());
+            }
+            let mut v = [0.0f64; 8];
+            for (k, i) in [1usize, 2, 3, 4, 7, 8, 9, 10].iter().enumerate() {
+                let Some(x) = parse_rat(toks[*i]) else { return Some("bad-op".into()) };
+                v[k] = x;
+            }
+            let (Ok(nx), Ok(ny)) = (toks[5].parse::<usize>(), toks[6].parse::<usize>()) else { return Some("bad-op".into()) };
+            let gd = honeycomb_core::cmap::GridDescriptor::<2, f64>::default()
+                .n_cells([nx, ny])
+                .len_per_cell([v[0], v[1]])
+                .origin([v[2], v[3]]);
+            let Ok(map) = CMapBuilder::<2, f64>::from_grid_descriptor(gd).build() else { return Some("bad-op".into()) };
+            let geometry = honeycomb_kernels::grisubal::verif::Geometry2 {
+                vertices: vec![honeycomb_core::geometry::Vertex2(v[4], v[5]), honeycomb_core::geometry::Vertex2(v[6], v[7])],
+                segments: vec![(0, 1)],
+                poi: vec![],
+            };
+            let data = honeycomb_kernels::grisubal::verif::intersection_data(
+                &map,
+                &geometry,
+                [nx, ny],
+                [v[0], v[1]],
+                honeycomb_core::geometry::Vertex2(v[2], v[3]),
+            );
+            let parts: Vec<String> = data.iter().map(|(d, t)| format!("{d} {}", crate::fmt::rat(*t))).collect();
+            Some(if parts.is_empty() { "ok".into() } else { format!("ok {}", parts.join(" ; ")) })
+        }
         "gcross" | "gchain" => {
             // gcross|gchain <cx> <cy> <ox> <oy> <nx> x1 y1 x2 y2: the grid arguments are for the model (which has no
             // map); here the answer is read off the map the real kernel returned
@@ -415,9 +492,62 @@ pub fn step(sess: &mut Sess, toks: &[&str]) -> Option<String> {
             if has_anchors(&s.map) {
                 return Some("ok".into());
             }
-            let r = with_anchors(s);
+            let r = rebuild(s, true, false);
             *sess = Sess::D2(r);
             Some("ok".into())
+        }
+        "bndinit" => {
+            let Sess::D2(s) = sess else { return Some("bad-op".into()) };
+            if toks.len() != 1 {
+                return Some("bad-op".into());
+            }
+            if s.map.contains_attribute::<Boundary>() {
+                return Some("ok".into());
+            }
+            let r = rebuild(s, false, true);
+            *sess = Sess::D2(r);
+            Some("ok".into())
+        }
+        "wbnd" => {
+            // wbnd <dart> <L|R|N|->: force_write_attribute::<Boundary>(dart, …) / force_remove_attribute
+            let Sess::D2(s) = sess else { return Some("bad-op".into()) };
+            let [_, d, v] = toks else { return Some("bad-op".into()) };
+            let Ok(d) = d.parse::<DartIdType>() else { return Some("bad-op".into()) };
+            if !s.map.contains_attribute::<Boundary>() {
+                return Some("bad-op".into());
+            }
+            match *v {
+                "L" => {
+                    s.map.force_write_attribute(d, Boundary::Left);
+                }
+                "R" => {
+                    s.map.force_write_attribute(d, Boundary::Right);
+                }
+                "N" => {
+                    s.map.force_write_attribute(d, Boundary::None);
+                }
+                "-" => {
+                    s.map.force_remove_attribute::<Boundary>(d);
+                }
+                _ => return Some("bad-op".into()),
+            }
+            Some("ok".into())
+        }
+        "clip" => {
+            // clip left|right: the real clip_left / clip_right (hook grisubal::verif) on the session map
+            let Sess::D2(s) = sess else { return Some("bad-op".into()) };
+            if toks.len() != 2 || !s.map.contains_attribute::<Boundary>() {
+                return Some("bad-op".into());
+            }
+            let r = match toks[1] {
+                "left" => clip_left(&mut s.map),
+                "right" => clip_right(&mut s.map),
+                _ => return Some("bad-op".into()),
+            };
+            Some(match r {
+                Ok(()) => "ok".into(),
+                Err(e) => gris_err(&e),
+            })
         }
         "wanchor" => {
             let Sess::D2(s) = sess else { return Some("bad-op".into()) };
